@@ -35,6 +35,9 @@ def main(tier):
             run.ob("model-equal", "%s/%s: post-heap equals reference model" % (entry, prof), md == [],
                    key="%s|post-heap differs from the model on %s" % (entry, ",".join(fields) or "?"), detail=e2props.detail_of(rec),
                    nontrivial=e2props.nontrivial_tag(rec))
+            if entry == "append_value":
+                run.ob("model-equal", "append_value/%s returns the current id of the new node" % prof, rec.get("returned_id_is_current") is True,
+                       key="append_value|returned id is not the current id of the node it created", detail=e2props.detail_of(rec))
             if not rec.get("overlay"):
                 noop += 1
             elif md == [] and len(run.samples) < 6:
